@@ -44,6 +44,7 @@ type vvIn struct {
 	Dep  string `json:"dep"`
 	Mint string `json:"mint"`
 	Amt  vvAmt  `json:"amt"`
+	Oamt vvAmt  `json:"oamt"` // amount of the deposit record when the input also carries a mint record
 }
 
 type vvOut struct {
@@ -552,6 +553,12 @@ func (w *vvWorld) inputRef(c *vvCase, name string) common.Input {
 	if s, ok := w.slots[name]; ok {
 		return s.in
 	}
+	if len(name) > 3 && name[:3] == "x1i" {
+		// another index of the transaction whose output 0 is x1: no such output
+		var k uint
+		fmt.Sscanf(name[3:], "%d", &k)
+		return common.Input{Hash: w.slots["x1"].in.Hash, Index: k}
+	}
 	switch name {
 	case "badidx":
 		return common.Input{Hash: w.refFin, Index: 900}
@@ -704,7 +711,11 @@ func (w *vvWorld) build(c *vvCase) *vvBuilt {
 			ci.Genesis = append([]byte{}, w.network[:]...)
 		}
 		if in.Dep != "none" {
-			dd := w.depositData(c.Asset, fmt.Sprintf("dep-%d-%d-%d", w.seed, c.Id, i), uint64(i), w.integer(in.Amt))
+			damt := in.Amt
+			if in.Mint != "none" {
+				damt = in.Oamt
+			}
+			dd := w.depositData(c.Asset, fmt.Sprintf("dep-%d-%d-%d", w.seed, c.Id, i), uint64(i), w.integer(damt))
 			switch in.Dep {
 			case "emptytx":
 				dd.Transaction = ""
@@ -739,6 +750,12 @@ func (w *vvWorld) build(c *vvCase) *vvBuilt {
 			slot = nil
 		}
 		tx.Inputs = append(tx.Inputs, ci)
+		if slot == nil && len(in.Slot) > 3 && in.Slot[:3] == "x1i" {
+			// sign with the keys of x1 (what a spender of an aliased record would present);
+			// the output does not exist, so it contributes no keys
+			b.slots = append(b.slots, w.slots["x1"])
+			continue
+		}
 		b.slots = append(b.slots, slot)
 		if slot != nil {
 			for k := range slot.pubs {
@@ -983,7 +1000,7 @@ var vvTypeNames = map[uint8]string{
 func (w *vvWorld) observe(t testing.TB, ver *common.VersionedTransaction) vM {
 	ins := []vM{}
 	for _, in := range ver.Inputs {
-		m := vM{"ord": false, "exists": false, "asset": 0, "amt": []int{}, "typ": "-", "nk": 0, "locked": false, "gen": len(in.Genesis) > 0}
+		m := vM{"ord": false, "exists": false, "asset": 0, "amt": []int{}, "typ": "-", "nk": 0, "locked": false, "phantom": false, "gen": len(in.Genesis) > 0}
 		switch {
 		case in.Mint != nil:
 			m["amt"] = vvLimbs(vvBig(in.Mint.Amount))
@@ -996,7 +1013,17 @@ func (w *vvWorld) observe(t testing.TB, ver *common.VersionedTransaction) vM {
 			if err != nil {
 				t.Fatalf("observe: %v", err)
 			}
-			if u != nil {
+			// an output exists when the finalized transaction body has it; the record the store
+			// returns for (hash, index) must be that output
+			body, fin, err := w.store.ReadTransaction(in.Hash)
+			if err != nil {
+				t.Fatalf("observe: %v", err)
+			}
+			inBody := body != nil && fin != "" && int(in.Index) < len(body.Outputs)
+			if u != nil && !inBody {
+				m["phantom"] = true
+			}
+			if u != nil && inBody {
 				m["exists"] = true
 				m["asset"] = w.assetClass(u.Asset)
 				m["amt"] = vvLimbs(vvBig(u.Amount))
